@@ -30,7 +30,7 @@ MANIFEST = dict(
         "label), and folds.validation(p) holds exactly the elements assigned to fold p; createCVIndexed yields a permutation of the original pairs; "
         "createCVSameSize, for every permutation the shuffle may draw, yields a well-formed permutation of the original pairs in exactly the computed "
         "batch layout with disjoint covering folds. The model is tied to the six fold-construction functions by an exact correspondence in which the "
-        "RNG draws of the real code are observed and checked against the model's relation, on unsigned / RealVector / CompressedRealVector inputs under "
+        "RNG draws of the real code are observed and checked against the model's relation, on unsigned / RealVector / CompressedRealVector / user-struct inputs under "
         "ASan/UBSan (thorough tier exhaustive over (n, k, batch size) for n <= 30), plus an independent in-harness oracle for disjointness, cover, "
         "complement, pairing, fold-size and class balance, requested fold, recreation indices and shape."),
   note=TRUST + "checked by correspondence + oracle only (no theorem): that the dealing order the real createCVSameSizeBalanced draws is class-sorted (validSeq is "
@@ -45,7 +45,7 @@ FINISH = dict(level="proof",
                    "at least 2 folds and n not divisible by k or by the batch size; distinct = distinct op text")
 
 LAKE_TARGETS = ["SharkVerif.Props.C12", "drv_c12"]
-TYPES = [("uint", []), ("real", ["3"]), ("sparse", ["7"])]
+TYPES = [("uint", []), ("real", ["3"]), ("sparse", ["7"]), ("blob", [])]
 RNG_OPS = "iid,samesize,balanced,batch"
 
 
